@@ -492,6 +492,25 @@ def failUpdate (b : List Nat) : Option (List Nat) := do
   let upd := (body.drop (4 + off)).take ul
   some (if upd.take 2 == [1, 2] then upd.drop 2 else upd)
 
+/-- type of the last record header that can still be read (tolerant walk, for attribution). -/
+def lastRecType (b : List Nat) : Nat :=
+  let rec go : Nat → List Nat → Nat → Nat
+    | 0, _, last => last
+    | fuel + 1, b, last =>
+      match specReadBigSize b with
+      | none => last
+      | some (t, w1) =>
+        match specReadBigSize (b.drop w1) with
+        | none => t
+        | some (l, w2) => go fuel ((b.drop (w1 + w2)).drop l) t
+  go (b.length + 1) b 0
+
+def replayKey (t : Nat) (out : Wire.Outcome) : String :=
+  let tn := if t ≥ 32768 then 32768 else t
+  match out with
+  | .reject => s!"replayed_type_{tn}_rej"
+  | .accept _ => s!"replayed_type_{tn}_acc"
+
 def stepMsg (s : St) (ws : List String) (line : String) (isFail : Bool) : IO St := do
   let res := resWords ws
   let tag := res.headD "?"
@@ -563,6 +582,33 @@ def stepMsg (s : St) (ws : List String) (line : String) (isFail : Bool) : IO St 
           else
             let clause := if cls == "unknown-dropped" then "lossy-reencode" else s!"lossy-reencode-{cls}"
             s ← monitor s clause s!"dec(enc(dec in)) differs from dec in (information lost by Encode; {cls}): in={inHex.take 60}..{String.ofList (inHex.toList.drop (inHex.length - 24))}"
+        -- (S) the extension tail of an accepted message is a TLV stream: it must be canonical
+        -- (lengths within the input), and a record that is written back keeps its value unless
+        -- the message documents a normalisation for it (schema `norm` list / BigSize records).
+        if !isFail then
+          match (hexBytes? inHex).bind (fun i => Wire.tlvTailOf (toU8 i)),
+                ((kv? res "enc").bind hexBytes?).bind (fun e => Wire.tlvTailOf (toU8 e)) with
+          | some (sx, tin), some (_, tout) =>
+            let bigs : List (Nat × Kind) := sx.known.filter (·.2.isBigsize)
+            let tinN := ofU8 tin
+            match specParse bigs true false (tinN.length + 2) none tinN with
+            | .error e =>
+              match specParse bigs true true (tinN.length + 2) none tinN with
+              | .ok (_, true) =>
+                s ← monitor s "bigsize-record-length" s!"decoder=lnwire_msg_tail accepted a message whose BigSize record's declared length differs from the bytes DBigSize consumed ({repr e}): in={inHex.take 80}"
+              | _ =>
+                s ← monitor s "tail-not-canonical" s!"rec={lastRecType tinN} accepted a message whose extension tail is not a canonical TLV stream within the input ({repr e}): in={inHex.take 60}..{String.ofList (inHex.toList.drop (inHex.length - 24))}"
+            | .ok (ri, _) =>
+              match specParse [] true false (tout.length + 2) none (ofU8 tout) with
+              | .ok (ro, _) =>
+                for r in ri do
+                  match ro.find? (·.1 == r.1) with
+                  | some r' =>
+                    if r'.2 != r.2 && !(sx.norm.any (fun n => n.1 == r.1 && !sx.quirk.contains r.1)) && !(bigs.any (·.1 == r.1)) then
+                      s ← monitor s "tlv-record-value-changed" s!"rec={r.1} value {bytesHex (r.2.take 40)} re-encoded as {bytesHex (r'.2.take 40)} (no normalisation documented for this record): in={inHex.take 60}"
+                  | none => pure ()
+              | .error _ => pure ()
+          | _, _ => pure ()
         if (s.kind == "valid" || s.kind == "fail-valid") && fixb then
           -- canonical encodings of generated values are reproduced exactly
           if (kv? res "enc") != some inHex then
@@ -578,6 +624,7 @@ def stepMsg (s : St) (ws : List String) (line : String) (isFail : Bool) : IO St 
       match (if isFail then Wire.modelFailure (toU8 inp) else Wire.modelMessage (toU8 inp)) with
       | none => pure ()
       | some out =>
+        if !isFail then s := bump s (replayKey s.mtype out)
         s := if isFail then bump s "fail_replayed_by_model" else
              { s with modelled := s.modelled + 1,
                       modelledTypes := if s.modelledTypes.contains s.mtype then s.modelledTypes else s.mtype :: s.modelledTypes }
